@@ -9,7 +9,7 @@
 (* and (unchanged) input, and replayed through the real prelude.                            *)
 EXTENDS Integers, Sequences, FiniteSets, TLC, Json, IOUtils, SequencesExt
 
-CONSTANTS MaxLen
+CONSTANTS MaxLen, CloneRange
 Vals == {-1, 0, 1, 2}
 Vecs == UNION {[1..n -> Vals] : n \in 0..MaxLen}
 SmallVecs == {<<>>, <<1>>, <<2, 0>>, <<-1, 1, 2>>}
@@ -163,7 +163,34 @@ CasesMisc == {[fn |-> "retro", a |-> a, n |-> 0, exp |-> Rev(a)] : a \in Vecs} \
              \cup {[fn |-> "collate", a |-> <<x, y>>, n |-> 0, exp |-> <<x, y>>] : x \in Vals, y \in Vals}
              \cup {[fn |-> "new", a |-> a, n |-> 0, exp |-> <<>>] : a \in Vecs}
 
-Export == ndJsonSerialize(IOEnv.OUT4, SetToSeq(CasesChr)) /\ ndJsonSerialize(IOEnv.OUT5, SetToSeq(CasesMisc)) /\ ndJsonSerialize(IOEnv.OUT, SetToSeq(CasesVec)) /\ ndJsonSerialize(IOEnv.OUT2, SetToSeq(CasesScalar)) /\ ndJsonSerialize(IOEnv.OUT3, SetToSeq(CasesStr))
+\* ---------------------------------------------------------------- range OBJECTS as inputs
+\* An algorithm handed a range (or a reversed range) held in a variable works on its own copy of the cursor: it computes what it
+\* computes for the elements the range spans, in the range's order, and the caller's range still spans all of them afterwards (rest).
+ViewOf(form, a) == IF form = "retro" THEN Rev(a) ELSE a
+\* every algorithm starts with `r := range(input)` and pops r as it goes.  For a container that builds a fresh cursor; for a range
+\* object range() returns a COPY (CloneRange; FALSE is the modelled regression: the caller's own cursor is walked).
+Popped(fn, v, b, n, cb) ==
+  CASE fn \in {"for_each", "map", "foldl", "sum", "product", "join"} -> Len(v)
+    [] fn = "any_of" -> (LET k == FirstTrue(v, cb) IN IF k = 0 THEN Len(v) ELSE k - 1)       \* returns before popping the match
+    [] fn = "all_of" -> (LET k == FirstFalse(v, cb) IN IF k = 0 THEN Len(v) ELSE k - 1)
+    [] fn = "contains" -> (LET c == {i \in 1..Len(v) : v[i] = n} IN IF c = {} THEN Len(v) ELSE (CHOOSE i \in c : \A j \in c : i <= j) - 1)
+    [] fn \in {"zip", "zip_with"} -> Min2(Len(v), Len(b))
+RestAfter(fn, form, a, b, n, cb) == LET v == ViewOf(form, a) IN IF CloneRange THEN v ELSE SubSeq(v, Popped(fn, v, b, n, cb) + 1, Len(v))
+RangeCase(fn, form, a, b, n, cb) == [fn |-> fn, form |-> form, a |-> a, b |-> b, n |-> n, cb |-> cb,
+                                     exp |-> Spec(fn, ViewOf(form, a), b, n, cb), rest |-> RestAfter(fn, form, a, b, n, cb)]
+Forms == {"range", "retro", "range_of_range"}
+CasesRange ==
+   {RangeCase(fn, fm, a, <<>>, 0, "") : fn \in {"for_each", "sum", "product", "join"}, fm \in Forms, a \in Vecs}
+   \cup {RangeCase("map", fm, a, <<>>, 0, f) : fm \in Forms, a \in Vecs, f \in F1s}
+   \cup {RangeCase(fn, fm, a, <<>>, 0, p) : fn \in {"any_of", "all_of"}, fm \in Forms, a \in Vecs, p \in Preds}
+   \cup {RangeCase("foldl", fm, a, <<>>, n, f) : fm \in Forms, a \in Vecs, n \in {0, 2}, f \in F2s}
+   \cup {RangeCase("contains", fm, a, <<>>, n, "") : fm \in Forms, a \in Vecs, n \in {-1, 2, 5}}
+   \cup {RangeCase("zip", fm, a, b, 0, "") : fm \in Forms, a \in Vecs, b \in SmallVecs}
+   \cup {RangeCase("zip_with", fm, a, b, 0, f) : fm \in Forms, a \in Vecs, b \in SmallVecs, f \in F2s}
+\* "leave their inputs unmodified": the caller's range spans afterwards what it spanned before
+InputRangeKept == \A c \in CasesRange : c.rest = ViewOf(c.form, c.a)
+
+Export == ndJsonSerialize(IOEnv.OUT6, SetToSeq(CasesRange)) /\ ndJsonSerialize(IOEnv.OUT4, SetToSeq(CasesChr)) /\ ndJsonSerialize(IOEnv.OUT5, SetToSeq(CasesMisc)) /\ ndJsonSerialize(IOEnv.OUT, SetToSeq(CasesVec)) /\ ndJsonSerialize(IOEnv.OUT2, SetToSeq(CasesScalar)) /\ ndJsonSerialize(IOEnv.OUT3, SetToSeq(CasesStr))
 
 VARIABLE dummy
 Init == dummy = 0
